@@ -244,6 +244,26 @@ def maxDepth (fs : Fs) : Nat := fs.ents.foldl (fun m x => max m x.1.length) 0
 def dirUnlinkTop (fs : Fs) (dir : Bytes) (recursive : Bool) : Fs × Bool :=
   dirUnlink (maxDepth fs + 2) recursive fs dir
 
+/-- the loop of Directory::purge: `for(i = getDirectoryName(path); i != "."; i = getDirectoryName(i)) if(rmdir(i) != 0) break;` -/
+def purgeUp : Nat → Fs → Bytes → Fs
+  | 0, fs, _ => fs
+  | n + 1, fs, i =>
+    if i = [46] then fs
+    else
+      match sysRmdir fs i with
+      | (fs', .ok _) => purgeUp n fs' (getDirectoryName i)
+      | (fs', .error _) => fs'
+
+/-- Directory::purge(path, recursive): unlink, then remove the parents while they are empty -/
+def dirPurge (fs : Fs) (path : Bytes) (recursive : Bool) : Fs × Bool :=
+  match dirUnlinkTop fs path recursive with
+  | (fs', false) => (fs', false)
+  | (fs', true) => (purgeUp (path.length + 1) fs' (getDirectoryName path), true)
+
+/-- File::getAbsolutePath with the working directory `/s` -/
+def getAbsolutePath (path : Bytes) : Bytes :=
+  if isAbsolutePath path then path else [47, 115] ++ [47] ++ path
+
 /-- Directory::open(dir, "", dirsOnly = false) + read until the end: (name, isDir) in readdir order.
     A symbolic link is reported as directory when `stat` says so. -/
 def dirList (fs : Fs) (dir : Bytes) : Option (List (Name × Bool)) :=
@@ -255,5 +275,47 @@ def dirList (fs : Fs) (dir : Bytes) : Option (List (Name × Bool)) :=
       | .dir => (n, true)
       | .link _ => (n, dirExists fs ((if dir = [] then [] else dir ++ [47]) ++ n))
       | .file _ => (n, false)))
+
+
+/-- the state-changing operations of the correspondence run (what a history consists of) -/
+inductive FsOp
+  | mkdir (path : Bytes)
+  | mkfile (path data : Bytes)
+  | symlink (target path : Bytes)
+  | create (path : Bytes) (fault : Option Nat)
+  | rmdir (path : Bytes) (recursive : Bool)
+  | purge (path : Bytes) (recursive : Bool)
+  | unlink (path : Bytes)
+  | rename (frm to : Bytes) (failIfExists : Bool)
+  | copy (src dst : Bytes) (failIfExists : Bool) (fault : SfFault)
+  | file (path : Bytes) (flags : Nat) (script : List FileOp)
+
+/-- raw creat + write used for set-up -/
+def mkfile (fs : Fs) (path data : Bytes) : Fs × Bool :=
+  match sysOpen fs path { acc := .wronly, creat := true, trunc := true } with
+  | (fs', .error _) => (fs', false)
+  | (fs', .ok fd) => ((sysWrite fs' fd data).1, true)
+
+/-- File f; f.open(path, flags); script; f.close() -/
+def fileSession (fs : Fs) (path : Bytes) (flags : Nat) (script : List FileOp) : Fs × Option (List FileOut) :=
+  match fileOpen fs path flags with
+  | (fs', none) => (fs', none)
+  | (fs', some fd) => let r := runOps fs' fd script; (r.1, some r.2.2)
+
+/-- the world after one operation -/
+def fsApply (fs : Fs) : FsOp → Fs
+  | .mkdir p => (sysMkdir fs p).1
+  | .mkfile p d => (mkfile fs p d).1
+  | .symlink t p => (sysSymlink fs t p).1
+  | .create p fault => (dirCreateTop fs p fault).1
+  | .rmdir p r => (dirUnlinkTop fs p r).1
+  | .purge p r => (dirPurge fs p r).1
+  | .unlink p => (fileUnlink fs p).1
+  | .rename a b f => (fileRename fs a b f).1
+  | .copy a b f ft => (fileCopy fs a b f ft).1
+  | .file p fl sc => (fileSession fs p fl sc).1
+
+/-- the world after a history -/
+def fsRun (fs : Fs) (ops : List FsOp) : Fs := ops.foldl fsApply fs
 
 end Nstd.Path
